@@ -344,25 +344,51 @@ def build_expr(e, pool):
     return np.subtract(a, b)
 
 
-def eval_expr(e, leafval):
+def ill_conditioned(e, leafval):
+    """True if rounding the leaves by a few ulp changes the value of the expression beyond the comparison tolerance (or out
+    of the real numbers): a branch point such as log(p/p) ** q, where p/p is 1 or 1 - 1e-16 depending on how the quotient
+    is formed.  Nothing about the library can be concluded from such a point."""
+    try:
+        with np.errstate(all="ignore"):
+            base = eval_expr(e, leafval)
+            for f in (1 + 2.0 ** -50, 1 - 2.0 ** -50):
+                # every leaf and every intermediate result rounded the other way by a few ulp
+                v = eval_expr(e, lambda i, f=f: np.asarray(leafval(i)) * f, jitter=f)
+                if np.iscomplexobj(v) or not np.all(np.isfinite(np.asarray(v, dtype=float))) or not _close(v, base):
+                    return True
+    except Exception:
+        return True
+    return False
+
+
+def eval_expr(e, leafval, jitter=None):
     """reference evaluator: leafval(i) is called once per prior occurrence, in left-to-right order."""
+    if jitter is not None and e["t"] in ("u", "b"):
+        v = eval_expr(e, leafval) if False else _eval_node(e, leafval, jitter)
+        return np.asarray(v) * jitter if not isinstance(v, complex) else v
+    return _eval_node(e, leafval, None)
+
+
+def _eval_node(e, leafval, jitter):
     if e["t"] == "p":
         return leafval(e["i"])
     if e["t"] == "n":
         return e["v"]
     if e["t"] == "u":
-        a = eval_expr(e["a"], leafval)
+        a = eval_expr(e["a"], leafval, jitter)
         op = e["op"]
         if op == "neg":
             return -a
+        if isinstance(a, int) and not isinstance(a, bool) and abs(a) > 2 ** 62:
+            a = float(a)          # an exact python integer beyond int64 (integer guess to an integer power)
         return {"np.sqrt": np.sqrt, "np.exp": np.exp, "np.log": np.log, "np.sin": np.sin, "np.square": np.square}[op](a)
     op = e["op"]
     if op in ("radd", "rsub", "rmul", "rdiv"):
         # python evaluates build_expr(a) then build_expr(b) (our construction order), but the *derived prior* stores
         # operands in the order of the reflected operation; sampling order follows the stored order
         pass
-    a = eval_expr(e["a"], leafval)
-    b = eval_expr(e["b"], leafval)
+    a = eval_expr(e["a"], leafval, jitter)
+    b = eval_expr(e["b"], leafval, jitter)
     if op in ("add", "radd", "np.add"): return a + b
     if op == "sub": return a - b
     if op in ("rsub", "np.rsubtract"): return b - a
@@ -416,11 +442,18 @@ def run_alg(case):
     try:
         with np.errstate(all="ignore"):
             got_g = d.guess
+    except TypeError as ex:
+        if "ufunc" in str(ex) and "type int" in str(ex):
+            # numpy's own rule: a python integer beyond int64 (an integer guess to the 41st power) is not accepted by ufuncs
+            return Outcome(None, False, labels + ["domain_error"], skipped=True)
+        raise
     except (ZeroDivisionError, OverflowError):
         # the library divides as a * (1/b) with python floats, where a zero-valued sub-expression raises although
         # numpy in the reference quietly produced inf: division by zero is outside the arithmetic's domain
         return Outcome(None, False, labels + ["domain_error"], skipped=True)
     if not _close(got_g, want_g):
+        if ill_conditioned(e, lambda i: pool[i].guess):
+            return Outcome(None, False, labels + ["ill_conditioned_expression"], skipped=True)
         return Outcome(failure("derived_guess", "derived guess %r != operation on base guesses %r" % (got_g, want_g)), True, labels)
     # samples: the same numpy seed, leaves drawn in the order the derived prior stores them
     size = tuple(case["size"]) if isinstance(case["size"], list) else case["size"]
@@ -461,6 +494,8 @@ def run_alg(case):
     if isinstance(a, complex) or isinstance(b, complex):
         return Outcome(None, _depth(e) >= 2, labels)
     if not _close(a, b):
+        if ill_conditioned(e, lambda i: vals[id(pool[i])]):
+            return Outcome(None, False, labels + ["ill_conditioned_expression"], skipped=True)
         return Outcome(failure("derived_structure", "derived prior evaluates to %r on fixed leaf values, expression gives %r" % (b, a)), True, labels)
     nontrivial = _depth(e) >= 2
     return Outcome(None, nontrivial, labels)
